@@ -75,13 +75,13 @@ Theorem C13_copy_keeps_originals : forall cfg st o t ob, get st t = Some ob ->
   get (fst (step cfg (OCopy o) st)) t = Some ob.
 Proof. exact copy_keeps_originals. Qed.
 
-(* REFUTED for the wrapper without try/finally (the code before 5afd9f1; Model.wrapper_cleanup = false):
+(* HISTORY, REFUTED for the wrapper without try/finally (the code before 5afd9f1; Model.wrapper_cleanup = false):
    the full statement (no guard) fails after a failing walk call *)
-Theorem C13_coherent_refuted_unrepaired_wrapper : ~ coherent_everywhere cfg_pinned.
+Theorem C13_coherent_legacy_refuted_unrepaired_wrapper : ~ coherent_everywhere cfg_pinned.
 Proof. exact refuted_failing_call_unrepaired. Qed.
 
 (* ... and, independently of the wrapper, after a modification below a still-frozen ancestor *)
-Theorem C13_coherent_refuted_stale_ancestor : ~ coherent_everywhere cfg_repaired.
+Theorem C13_coherent_refuted_stale_ancestor : ~ coherent_everywhere cfg_fixed.
 Proof. exact refuted_stale_ancestor. Qed.
 
 (* for the repaired wrapper (try/finally) failing calls are inside the guard *)
@@ -107,7 +107,7 @@ Theorem C13_frozen_rejects_setitem : forall cfg st o ob key v,
 Proof. exact frozen_rejects_setitem. Qed.
 
 (* REFUTED: ... but not the members of a TuplePrior below a frozen model *)
-Theorem C13_freeze_protects_all_refuted : ~ freeze_protects_all cfg_repaired.
+Theorem C13_freeze_protects_all_refuted : ~ freeze_protects_all cfg_fixed.
 Proof. exact tuple_unprotected. Qed.
 
 (* FULL: effects of accepted modifications on a Model, of append and of delattr (which no flag stops) *)
@@ -146,24 +146,51 @@ Theorem C13_setattr_is_local : forall cfg st c ob name v o k,
   pure_key (fst (step cfg (OSet c name v) st)) o k = pure_key st o k.
 Proof. exact setattr_is_local. Qed.
 
-(* REFUTED: ... item assignment is not: Collection.__setitem__ writes the id of the replaced value into the
-   assigned prior, which other models hold (ordered ids of an untouched collection change, two priors can merge) *)
-Theorem C13_setitem_is_local_refuted : ~ setitem_is_local cfg_repaired.
+(* FULL (code since 6df133a, itransfers = false): ... and so is item assignment: it is the dict assignment on that
+   collection and changes no prior id and no other object *)
+Theorem C13_setitem_effect : forall cfg st o ob key v,
+  itransfers cfg = false -> get st o = Some ob -> okind ob = KColl -> ofrozen ob = false ->
+  let st' := fst (step cfg (OSetItem o key v) st) in
+  comp_at st' o = Some (KColl, set_attr key v (oattrs ob), onitems ob) /\
+  (forall t, t <> o -> comp_at st' t = comp_at st t) /\
+  ptab st' = ptab st /\ inflight st' = inflight st /\
+  snd (step cfg (OSetItem o key v) st) = Ok AUnit.
+Proof. exact setitem_effect. Qed.
+
+Theorem C13_setitem_is_local : forall cfg st c ob key v o k,
+  itransfers cfg = false -> get st c = Some ob -> okind ob = KColl -> ofrozen ob = false -> ~ Reach st o c ->
+  pure_key (fst (step cfg (OSetItem c key v) st)) o k = pure_key st o k.
+Proof. exact setitem_is_local_now. Qed.
+
+(* HISTORY (before 6df133a, itransfers = true): Collection.__setitem__ wrote the id of the replaced value into the
+   assigned prior, which other models hold *)
+Theorem C13_setitem_is_local_legacy_refuted : ~ setitem_is_local cfg_repaired.
 Proof. exact setitem_leaks. Qed.
 
-(* prior passing (mapper_from_prior_arguments & co.): PARTIAL -- it keeps composition and invariant ... *)
+(* FULL (code since b8214a7, dthaws = false): prior passing (mapper_from_prior_arguments & co.) is an ordinary query:
+   invariant, composition, prior ids and every frozen flag are kept *)
+Theorem C13_derive_is_a_query : forall cfg st o, dthaws cfg = false -> Inv st ->
+  let st' := fst (step cfg (ODerive o) st) in
+  Inv st' /\ skel st' = skel st /\ map ofrozen (heap st') = map ofrozen (heap st).
+Proof. exact derive_is_a_query. Qed.
+
+(* whatever dthaws is, it keeps composition and invariant *)
 Theorem C13_derive_keeps_composition : forall cfg st o, Inv st ->
   Inv (fst (step cfg (ODerive o) st)) /\ fresh (fst (step cfg (ODerive o) st)) = fresh st.
 Proof. exact derive_keeps_composition. Qed.
 
-(* REFUTED: ... but not the frozen flags: a Model below a frozen collection comes back thawed *)
-Theorem C13_derive_keeps_flags_refuted : ~ derive_keeps_flags cfg_repaired.
+(* HISTORY (before b8214a7, dthaws = true): a Model below a frozen collection came back thawed *)
+Theorem C13_derive_keeps_flags_legacy_refuted : ~ derive_keeps_flags cfg_repaired.
 Proof. exact derive_thaws_flags. Qed.
+
+(* the configuration the theorems are instantiated with by the correspondence is today's code *)
+Theorem C13_current_configuration : mkConfig cls0 pri0 wrapper_cleanup derive_thaws setitem_transfers = cfg_fixed.
+Proof. exact current_is_fixed. Qed.
 
 Print Assumptions C13_coherent_partial.
 Print Assumptions C13_history_independent.
-Print Assumptions C13_coherent_refuted_unrepaired_wrapper.
+Print Assumptions C13_coherent_legacy_refuted_unrepaired_wrapper.
 Print Assumptions C13_coherent_refuted_stale_ancestor.
 Print Assumptions C13_freeze_reaches_descendants.
-Print Assumptions C13_setitem_is_local_refuted.
-Print Assumptions C13_derive_keeps_flags_refuted.
+Print Assumptions C13_setitem_is_local.
+Print Assumptions C13_derive_is_a_query.
